@@ -164,6 +164,18 @@ fn classify(case: &DetCase, ctx: &mut CaseCtx) {
         })
     });
     ctx.label_if(multi_spelled, "node_with_several_spellings_of_one_property");
+    let aliases_only = case.forest.nodes.iter().any(|n| {
+        let mut by_canon: std::collections::HashMap<String, (usize, bool)> = Default::default();
+        for (name, _) in &n.props {
+            if let Some(v) = crate::dbview::resolve(&n.class, name) {
+                let e = by_canon.entry(v.roundtrip.clone()).or_default();
+                e.0 += 1;
+                e.1 |= !v.is_alias;
+            }
+        }
+        by_canon.values().any(|(k, has_canonical)| *k >= 2 && !has_canonical)
+    });
+    ctx.label_if(aliases_only, "node_with_two_aliases_and_no_canonical_spelling");
     ctx.nontrivial_if(((multi_prop && reordered) || modes.len() >= 2) && (classes.len() >= 2 || case.forest.nodes.len() >= 3));
 }
 
